@@ -2154,5 +2154,10 @@ func TestVerifC04(t *testing.T) {
 	kit.Run(t, "C04", "rest-flush", kit.N(600, 10000), restFlushCase)
 	kit.Run(t, "C04", "rest-odd-exempt", kit.N(120, 1500), restOddExemptCase)
 	kit.Run(t, "C04", "e2e-config", kit.N(40, 200), e2eConfigCase)
+	// slow works that finish in time behind really started servers (slow_test.go)
+	kit.Run(t, "C04", "e2e-slow", kit.N(16, 120), e2eSlowCase)
+	// accumulation: many calls whose works stay parked past their deadlines (many_test.go)
+	kit.Run(t, "C04", "fx-many", kit.N(24, 240), fxManyCase)
+	kit.Run(t, "C04", "rest-many", kit.N(16, 160), restManyCase)
 	kit.End()
 }
